@@ -309,4 +309,16 @@ def do_replay(mod, pid, path):
 
 
 if __name__ == "__main__":
-    sys.exit(main())
+    try:
+        rc = main()
+    except SystemExit:
+        raise
+    except Divergence as e:
+        # only --replay gets here: the recorded choices cannot be followed on this tree (it differs from the tree the record was made on)
+        print(f"REPLAY-DIVERGED: the recorded execution does not exist on this tree ({e}); nothing was reproduced")
+        rc = 2
+    except BaseException:  # noqa - exit status 1 is reserved for violations
+        traceback.print_exc()
+        print("MACHINERY-ERROR: unexpected exception")
+        rc = 2
+    sys.exit(rc)
